@@ -106,6 +106,11 @@ def run_config(cfg, hash_order=None, want_trace=False, shared=None):
         g = shared["grammar"] if (shared is not None and "grammar" in shared) else b.extract()
         if shared is not None:
             shared["grammar"] = g
+        if cfg.get("_update_weights") and not (shared or {}).get("weights_updated"):
+            # a (successful) weight update on the grammar object before the search
+            g.update_weights(0.7, {n: (1.0 if k % 2 else 0.2) for k, n in enumerate(sorted(g.all_nodes, key=lambda t: t.__name__))})
+            if shared is not None:
+                shared["weights_updated"] = True
         r = NativeRandomSource(cfg["seed"])
         depth = 8 if spec["name"].startswith("CHAIN") else 4
         if shared is not None and shared.get("rep") is not None:
@@ -239,6 +244,10 @@ def units(tier, seed):
             for algo in ("gp", "hc", "rs"):
                 us.append({"kind": "reannotated", "config": {"g": 1, "rep": rep, "algo": algo, "seed": cfgs[0]["seed"]},
                            "reannotate": [cls_name, field, new_t]})
+    # a weighted grammar that served a search, then has its weights updated, then serves the same seeded search again
+    for rep in ("stack", "tree", "ge"):
+        for algo in ("gp", "rs"):
+            us.append({"kind": "reweighted", "config": {"g": 2, "rep": rep, "algo": algo, "seed": cfgs[0]["seed"], "decider": "pt" if rep != "stack" else "maxdepth"}})
     return us
 
 
@@ -246,6 +255,28 @@ def run_unit(unit):
     from mc.harness import UnitResult, Violation
 
     r = UnitResult()
+    if unit["kind"] == "reweighted":
+        cfg = unit["config"]
+        sh: dict = {}
+        first = run_config(cfg, want_trace=True, shared=sh)  # the grammar object serves a search with its declared weights ...
+        sh.pop("rep", None)
+        second = run_config(dict(cfg, _update_weights=True), want_trace=True, shared=sh)  # ... then its weights are updated
+        sh["bundle"].cleanup()
+        alone = run_config(dict(cfg, _update_weights=True), want_trace=True)  # a fresh grammar, updated before any use
+        r.executions += 3
+        r.count("reweighted_histories")
+        r.nontrivial += 1
+        if first[0] == alone[0]:
+            r.count("weight_update_without_effect_on_this_search")
+        if second[0] != alone[0]:
+            k = next((i for i, (x, y) in enumerate(zip(second[1], alone[1])) if x != y), min(len(second[1]), len(alone[1])))
+            r.add_violation(Violation(PROP, f"{cfg['algo']}.search", "second-run-differs", {"rep": cfg["rep"], "algo": cfg["algo"], "shared": "reweighted-grammar"},
+                                      {"unit": unit, "first_difference": k},
+                                      f"{cfg} after grammar.update_weights on a grammar that had already served a search: diverges at evaluation {k} from the "
+                                      f"same search on a fresh grammar updated the same way: {second[1][k:k+1]} vs {alone[1][k:k+1]}"))
+        r.states += len({second[0], alone[0]})
+        r.samples.append({"config": cfg, "reweighted": True})
+        return r
     if unit["kind"] == "reannotated":
         from mc import grammars as G
 
